@@ -355,6 +355,7 @@ class Result:
             v = dict(v)
             v["property"] = self.prop
             v["seed"] = self.seed
+            v["tier"] = self.tier
             json.dump(v, open(path, "w"), indent=1)
             print("VIOLATION property=%s replay=%s" % (self.prop, path))
             print("  why: %s" % str(v.get("why", ""))[:300])
